@@ -44,6 +44,20 @@ Definition status_of (r : raw) : status := if custom_timeout r then TimeLimit el
 Definition conclusive (s : status) : bool := match s with Optimal | Infeasible => true | _ => false end.
 Definition is_optimal (s : status) : bool := match s with Optimal => true | _ => false end.
 
+(* SolverWrapper.optimize has two routes: [Direct] (time_limit infinite or use_also_custom_timeout False:
+   self.solver.optimize()) and [WithAlarm] (finite time_limit AND use_also_custom_timeout: _run_with_timeout
+   arms SIGALRM, whose handler sets did_timeout).  Either way optimize() first resets did_timeout and then
+   runs the backend on the model as it is now; nothing of an earlier run survives.  [swrun] = what happened
+   in one run: the backend's status and whether the alarm fired. *)
+Inductive route := Direct | WithAlarm.
+Record swrun := mkrun { run_native : status; run_alarm : bool }.
+Definition outcome_of (rt : route) (x : swrun) : raw :=
+  mkraw (run_native x) (match rt with WithAlarm => run_alarm x | Direct => false end).
+(* state of one wrapper object as far as the status is concerned = outcome of its last run *)
+Definition sw_optimize (rt : route) (st : option raw) (x : swrun) : option raw := Some (outcome_of rt x).
+Definition sw_runs (rt : route) (st : option raw) (xs : list swrun) : option raw := fold_left (sw_optimize rt) xs st.
+Definition sw_status (st : option raw) : option status := option_map status_of st.   (* None: never optimised *)
+
 (* ---------------------------------------------------------------- the solved flag of a k-model *)
 (* external        : the constructor already has a solution (kFlowDecomp's greedy shortcut passes
                      "external_solution_paths"): _is_solved = True from the start, no solver is created
@@ -363,6 +377,10 @@ Definition q_of_list (l : list Q) : nat -> Q := fun k => nth k l 0%Q.
 Definition run_kmodel (ext objfill : bool) (ops : list kop) : list kout * nat :=
   let c := mkcfg ext objfill in (snd (kruns c (kinit c) ops), kinvocations c ops).
 
+Definition run_wrapper (alarm_route : bool) (xs : list swrun) : list (option status) :=
+  let rt := if alarm_route then WithAlarm else Direct in
+  (* status reported after each run of a history on one wrapper *)
+  map (fun i => sw_status (sw_runs rt None (firstn (S i) xs))) (seq 0 (length xs)).
 Definition run_mgs (skips : bool) (lb n cuts : nat) (sts : list raw) : outcome := mgs_solve skips lb (mgs_size n cuts) sts.
 Definition run_mfd (skips exits excl : bool) (lb0 ne : nat) (umgs : bool) (nw cuts : nat) (gu : bool) (gw : nat)
   (gr : list bool) (sts : list raw) : outcome :=
